@@ -1,7 +1,7 @@
 """C05 Face areas are the spherical-polygon areas, invariantly"""
 PROPERTY = "C05"
 LEVEL = "proof"
-FUNCTIONS = []
+FUNCTIONS = ['uxarray.grid.grid.Grid.face_areas']
 STANDINS = ["areas"]
 ASSUMPTIONS = []
 EXPLANATION = "quadrature tables / Jacobian contracts + bounded stand-in against the exact spherical excess"
